@@ -864,6 +864,51 @@ class _MatchDesugar(ast.NodeTransformer):
         return out
 
 
+class _SplitTupleAssign(ast.NodeTransformer):
+    """`a[i], b[j] = x, y` is `a[i] = x; b[j] = y` when no right-hand side reads what an earlier target writes
+    (the right-hand sides are evaluated first in the original)."""
+    @staticmethod
+    def _root(t):
+        while isinstance(t, (ast.Subscript, ast.Attribute)):
+            t = t.value
+        return t.id if isinstance(t, ast.Name) else None
+
+    def visit_Assign(self, node: ast.Assign):
+        if len(node.targets) != 1 or not isinstance(node.targets[0], ast.Tuple) or not isinstance(node.value, ast.Tuple):
+            return node
+        ts, vs = node.targets[0].elts, node.value.elts
+        if len(ts) != len(vs) or any(isinstance(x, ast.Starred) for x in list(ts) + list(vs)):
+            return node
+        if not any(isinstance(t, (ast.Subscript, ast.Attribute)) for t in ts):
+            return node             # plain name unpacking is handled everywhere already
+        roots = [self._root(t) for t in ts]
+        if any(r is None for r in roots):
+            return node
+        for i in range(len(ts)):
+            for j in range(i + 1, len(vs)):
+                reads = {n.id for n in ast.walk(vs[j]) if isinstance(n, ast.Name)}
+                if roots[i] in reads:
+                    return node
+            # index expressions of later targets must not read an earlier plain-name target either
+            for j in range(i + 1, len(ts)):
+                if isinstance(ts[i], ast.Name) and ts[i].id in {n.id for n in ast.walk(ts[j]) if isinstance(n, ast.Name)}:
+                    return node
+        out = []
+        for t, v in zip(ts, vs):
+            a = ast.Assign(targets=[t], value=v)
+            ast.copy_location(a, node)
+            ast.fix_missing_locations(a)
+            out.append(a)
+        return out
+
+
+def split_tuple_assignments(trees: Dict[str, ast.Module]) -> None:
+    for tree in trees.values():
+        if any(isinstance(x, ast.Assign) and len(x.targets) == 1 and isinstance(x.targets[0], ast.Tuple) and isinstance(x.value, ast.Tuple) for x in ast.walk(tree)):
+            _SplitTupleAssign().visit(tree)
+            ast.fix_missing_locations(tree)
+
+
 class _MapOverDisplay(ast.NodeTransformer):
     """`map(f, (a, b))` / `map(f, (a, b), (c, d))` unpacked at once is the display `(f(a), f(b))` / `(f(a, c), f(b, d))`."""
     def visit_Assign(self, node: ast.Assign):
